@@ -2,6 +2,7 @@ package rules
 
 import (
 	"go/ast"
+	"go/token"
 	"go/types"
 	"regexp"
 	"sort"
@@ -25,11 +26,15 @@ func init() {
 			"handed to the templates is deterministic: nothing in map-iteration order escapes createConfig unsorted (MAPORDER); every session parameter is read in " +
 			"createConfig and lands in its neighborConfig field (COVER-PARAMS); community / local-preference sets and the per-family prefix maps are filled by the " +
 			"family of the advertised prefix (FAMILY-SETS); Set stores only validated advertisements and rolls back when the configuration cannot be generated " +
-			"(VALIDATE); advertisements for one prefix are merged only for equal prefix, family and local preference, otherwise inserted in prefix order (MERGE-GUARD).",
+			"(VALIDATE); advertisements for one prefix are merged only for equal prefix, family and local preference, otherwise inserted in prefix order (MERGE-GUARD); every name the FuncMap builds for a " +
+			"neighbour contains its whole identity - address or interface and VRF - its family and the function's other parameters (NAME-SCOPE).",
 		NotDecided: "FRR's own semantics of the generated text; that the union of communities is the requested one for every input (values); two sessions that map to " +
 			"the same neighbour name are resolved first-come in map order (information only).",
 		Run: runC14,
 		Mutants: []Mutant{
+			{Name: "neighbour-properties-recreated-for-every-session", File: "internal/bgp/frr/frr.go",
+				Old: "\t\tproperties := rout.neighborsProperties[neighborName]\n",
+				New: "\t\trout.neighborsProperties[neighborName] = &neighborProperties{CommunitiesV4: sets.New[string](), CommunitiesV6: sets.New[string](), LargeCommunitiesV4: sets.New[string](), LargeCommunitiesV6: sets.New[string](), LocalPrefsV4: sets.New[uint32](), LocalPrefsV6: sets.New[uint32]()}\n\t\tproperties := rout.neighborsProperties[neighborName]\n", Expect: "entry-created-only-when-absent"},
 			{Name: "timers-declared-outside-the-session-loop", File: "internal/bgp/frr/frr.go",
 				Old: "\tfor _, s := range sm.sessions {\n\t\tvar neighbor *neighborConfig\n\t\tvar exist bool\n\t\tvar rout *router\n\n\t\trouterName := RouterName(s.RouterID.String(), s.MyASN, s.VRFName)\n\t\tif rout, exist = routers[routerName]; !exist {\n\t\t\trout = &router{\n\t\t\t\tmyASN:               s.MyASN,\n\t\t\t\tneighbors:           make(map[string]*neighborConfig),\n\t\t\t\tneighborsProperties: make(map[string]*neighborProperties),\n\t\t\t\tipV4Prefixes:        make(map[string]string),\n\t\t\t\tipV6Prefixes:        make(map[string]string),\n\t\t\t\tvrf:                 s.VRFName,\n\t\t\t}\n\t\t\tif s.RouterID != nil {\n\t\t\t\trout.routerID = s.RouterID.String()\n\t\t\t}\n\t\t\trouters[routerName] = rout\n\t\t}\n\n\t\tneighborName := NeighborName(s.PeerAddress, s.PeerInterface, s.PeerASN, s.DynamicASN, s.VRFName)\n\t\tif neighbor, exist = rout.neighbors[neighborName]; !exist {\n\t\t\tfamily := ipfamily.ForAddress(net.ParseIP(s.PeerAddress))\n\n\t\t\tif s.PeerInterface != \"\" {\n\t\t\t\tfamily = ipfamily.DualStack\n\t\t\t}\n\n\t\t\tvar connectTime int64\n\t\t\tif s.ConnectTime != nil {\n\t\t\t\tconnectTime = int64(*s.ConnectTime / time.Second)\n\t\t\t}\n\n\t\t\tvar holdTime *int64\n\t\t\tvar keepaliveTime *int64\n",
 				New: "\tvar connectTime int64\n\tvar holdTime *int64\n\tvar keepaliveTime *int64\n\tfor _, s := range sm.sessions {\n\t\tvar neighbor *neighborConfig\n\t\tvar exist bool\n\t\tvar rout *router\n\n\t\trouterName := RouterName(s.RouterID.String(), s.MyASN, s.VRFName)\n\t\tif rout, exist = routers[routerName]; !exist {\n\t\t\trout = &router{\n\t\t\t\tmyASN:               s.MyASN,\n\t\t\t\tneighbors:           make(map[string]*neighborConfig),\n\t\t\t\tneighborsProperties: make(map[string]*neighborProperties),\n\t\t\t\tipV4Prefixes:        make(map[string]string),\n\t\t\t\tipV6Prefixes:        make(map[string]string),\n\t\t\t\tvrf:                 s.VRFName,\n\t\t\t}\n\t\t\tif s.RouterID != nil {\n\t\t\t\trout.routerID = s.RouterID.String()\n\t\t\t}\n\t\t\trouters[routerName] = rout\n\t\t}\n\n\t\tneighborName := NeighborName(s.PeerAddress, s.PeerInterface, s.PeerASN, s.DynamicASN, s.VRFName)\n\t\tif neighbor, exist = rout.neighbors[neighborName]; !exist {\n\t\t\tfamily := ipfamily.ForAddress(net.ParseIP(s.PeerAddress))\n\n\t\t\tif s.PeerInterface != \"\" {\n\t\t\t\tfamily = ipfamily.DualStack\n\t\t\t}\n\n\t\t\tif s.ConnectTime != nil {\n\t\t\t\tconnectTime = int64(*s.ConnectTime / time.Second)\n\t\t\t}\n\n", Expect: "built-from-its-own-session"},
@@ -296,6 +301,13 @@ func mentionsViaMethod(p *chk.Prog, f *chk.Fn, fld *types.Var) bool {
 }
 
 func c14Structure(p *chk.Prog, r *chk.Report, ts *chk.TemplateSet) {
+	// the structure rules are written against the record convention ({{template "neighborfilters" dict "neighbor" n ..}},
+	// .neighbor.X inside): a template that is handed the neighbour itself is read in that form (same output)
+	for _, tn := range []string{"neighborfilters", "neighborsession"} {
+		if ts.ArgIsGo(tn, "neighborConfig") {
+			ts.DotAsField(tn, "neighbor")
+		}
+	}
 	deny := r.Rule("TPL-DENY", "G template structure", "in template neighborfilters: there is a `route-map {{ID}}-in deny` entry; every `route-map {{ID}}-out permit` line is immediately followed by a `match ip|ipv6 address prefix-list` line (no unconditional permit); an entry that has a `set` line ends with `on-match next`, an entry without `set` does not; the `deny any` prefix-list lines are inside `if not .neighbor.HasV4Advertisements` / `HasV6Advertisements`", 10)
 	names := r.Rule("TPL-NAMES", "G template structure", "every prefix-list referenced by a `match` line is named by one of the naming functions applied to the template's neighbour, and a definition line `<family> prefix-list {{same function …}} …` exists (directly or through a variable assigned from that function) in neighborfilters or the filter templates it calls; the `match ip` / `match ipv6` keyword of a set-entry agrees with the V4 / V6 list it ranges over, and definitions use the family of the advertisement", 8)
 	lines := ts.Lines("neighborfilters")
@@ -625,6 +637,48 @@ func c14Params(p *chk.Prog, r *chk.Report) {
 	if rs, isRs := f.LoopOf(lit).(*ast.RangeStmt); isRs {
 		carried := carriedIntoIteration(f, f.Graph(), rs, lit)
 		x.Check("createConfig:neighbor-built-from-its-own-session", lit.Pos(), len(carried) == 0, "", "the neighbour entry reads "+strings.Join(carried, ", ")+", declared outside the session loop and not set on every path of an iteration: a session that leaves the setting unset inherits the value of the session visited before it (in map order)")
+	}
+	// what earlier sessions put under a router / neighbour key is kept: inside the session loop an entry of a keyed
+	// accumulator (routers, rout.neighbors, rout.neighborsProperties) is created only when the key is new - two sessions
+	// can map to one neighbour, and the second must not reset the community and local-preference sets of the first
+	if rs, isRs := f.LoopOf(lit).(*ast.RangeStmt); isRs {
+		g := f.Graph()
+		nStore := 0
+		for _, st := range g.Find(func(n ast.Node) bool {
+			as, ok := n.(*ast.AssignStmt)
+			if !ok || len(as.Lhs) != 1 || len(as.Rhs) != 1 || as.Tok != token.ASSIGN || !chk.InBody(rs, n) {
+				return false
+			}
+			ix, ok := ast.Unparen(as.Lhs[0]).(*ast.IndexExpr)
+			if !ok {
+				return false
+			}
+			mt, isMap := f.Info().TypeOf(ix.X).Underlying().(*types.Map)
+			if !isMap {
+				return false
+			}
+			_, ptrVal := mt.Elem().Underlying().(*types.Pointer)
+			return ptrVal // entries that are objects filled over several sessions
+		}) {
+			ix := ast.Unparen(st.Node.(*ast.AssignStmt).Lhs[0]).(*ast.IndexExpr)
+			// nested in a loop over the advertisements: a per-advertisement object, not a per-session accumulator
+			if l := f.LoopOf(st.Node); l != ast.Stmt(rs) {
+				continue
+			}
+			nStore++
+			sameK := func(e ast.Expr) bool { return f.SameExpr(e, ix.Index) }
+			absent := chk.GBool(false, func(e ast.Expr) bool {
+				id, isId := ast.Unparen(e).(*ast.Ident)
+				if !isId {
+					return false
+				}
+				rhs, idx := g.DefOf(id, g.FactSite(id))
+				return rhs != nil && idx == 1 && f.MatchWith("M[K]", rhs, chk.H("K", sameK)) != nil
+			})
+			nilEntry := g.GPat(true, "V == nil", chk.H("V", definedBy(g, "M[K]", chk.H("K", sameK))))
+			x.Check("createConfig:entry-created-only-when-absent:"+f.Src(ix.X), st.Pos(), g.Dominated(st, chk.GOr(absent, nilEntry)), "", "an entry of "+f.Src(ix.X)+" is (re)created for every session: when two sessions map to the same key the second visit throws away what the first accumulated (which one loses depends on map order)")
+		}
+		x.Check("createConfig:keyed-accumulators-found", lit.Pos(), nStore >= 2, "", "expected the router and neighbour (and neighbour-properties) entries to be created in the session loop")
 	}
 	srcOK := len(f.Graph().Find(f.IsAssignPat("N.SrcAddr", "S.SourceAddress.String()"))) == 1
 	x.Check("neighborConfig.SrcAddr", lit.Pos(), srcOK, "", "neighborConfig.SrcAddr is not filled from SessionParameters.SourceAddress")
